@@ -166,6 +166,10 @@ func MayCrash(site string) {
 	}
 }
 
+// Schedule: in the engine, goroutines started from here on are explored by the bounded
+// scheduler with the given preemption budget. Natively the Go scheduler runs them.
+func Schedule(preemptions int) {}
+
 // ForceAssign stores src into the interface variable *dst even if src's type does not
 // implement dst's interface type (engine only: used to hand model objects to code that
 // takes interfaces with unexported methods). Natively it panics: harnesses use it only
